@@ -10,6 +10,12 @@ Theorem C03_ra_eq_seq : S_ra_eq_seq.
 Proof. exact ra_eq_seq. Qed.
 Print Assumptions C03_ra_eq_seq.
 
+(** the lazy three-way merge of the copied / interval / residual streams ([Succ::next], the
+    copied stream being the masked iterator over the referenced list) yields the same list *)
+Theorem C03_ra_merge_eq : S_ra_merge_eq.
+Proof. exact ra_merge_eq. Qed.
+Print Assumptions C03_ra_merge_eq.
+
 (** fuel above the reference-chain depth of the node suffices *)
 Theorem C03_ra_fuel_depth : S_ra_fuel_depth.
 Proof. exact ra_fuel_depth. Qed.
